@@ -83,7 +83,27 @@ def main():
             extra[k] = v
     for k, v in extra.items():
         out["excs"][k] = [c.__module__ + "." + c.__qualname__ for c in v.__mro__]
+    out["special"] = special()
     json.dump(out, sys.stdout)
+
+
+def special():
+    """derived facts about library objects referenced from paramiko's tables (sizes only)"""
+    from paramiko.transport import Transport
+    sp = {"cipher_info": {}, "mac_info": {}}
+    for name, info in Transport._cipher_info.items():
+        sp["cipher_info"][name] = {"block-size": info.get("block-size"), "key-size": info.get("key-size"),
+                                   "iv-size": info.get("iv-size"), "is_aead": bool(info.get("is_aead", False)),
+                                   "mode": getattr(info.get("mode"), "__name__", None),
+                                   "class": getattr(info.get("class"), "__name__", None)}
+    for name, info in Transport._mac_info.items():
+        try:
+            ds = info["class"]().digest_size
+        except Exception:
+            ds = None
+        sp["mac_info"][name] = {"size": info.get("size"), "digest_size": ds,
+                                "class": getattr(info.get("class"), "__name__", None)}
+    return sp
 
 
 def register_class(out, cls):
